@@ -27,7 +27,7 @@ META = {
 # 0.3500014 is 4 parts in 1e6 away from 0.35 (a nudge is an assignment, not a no-op); 0.3141592653589793 and 1.122462048309373
 # have means that are not multiples of any decimal step; 1e-9 / 5e-9: a trace component (the property quantifies over positive values,
 # so zero is not in the alphabet)
-VALUES = [0.1, 0.35, 0.8, 0.3500014, 0.3141592653589793, 1.122462048309373, 1e-9, 5e-9]
+VALUES = [0.1, 0.35, 2, 0.8, 0.3500014, 0.3141592653589793, 1.122462048309373, 1e-9, 5e-9, 1]      # 2 and 1 are Python ints on purpose (`rho['solvent'] = 1`): an integer is a positive value
 NSEQ_VALUES = 4                 # the sequences without deduplication use the first 3 (quick) / 4 (thorough) values; the BFS all of them (first 5 for four types in quick)
 ALLTYPES = ['A', 'B', 'C', 'D']
 # further label sets (explored by the BFS only): integers that are not their own positions, names contained in one another
@@ -338,7 +338,7 @@ def run(rec, tier, seed):
     for kind in ('Density', 'Diameter'):
         for n in (1, 2, 3, 4):
             types = ALLTYPES[:n]
-            items.append(('bfs', kind, types, extra, 5 if (n == 4 and tier == 'quick') else None))
+            items.append(('bfs', kind, types, extra, 6 if (n == 4 and tier == 'quick') else None))
             nsv = 3 if tier == 'quick' else NSEQ_VALUES
             for op in ops_for(types, extra, nsv):
                 items.append(('seq', kind, types, op, sdepth[n], extra, nsv))
